@@ -9,6 +9,7 @@ from loguru import logger
 from mdpax.core.problem import Problem, ProblemConfig
 from mdpax.core.solver import SolverConfig, SolverState
 from mdpax.solvers.value_iteration import ValueIteration
+from mdpax.utils import _verif
 from mdpax.utils.types import (
     ActionSpace,
     BatchedStates,
@@ -297,6 +298,15 @@ class PolicyIteration(ValueIteration):
                     f"{self._convergence_desc}: {conv:{self.convergence_format}}"
                 )
 
+            if _verif.ENABLED:
+                _verif.emit(
+                    "eval_step",
+                    eval_iter=eval_iter + 1,
+                    conv=conv,
+                    policy=policy,
+                    old_values=values,
+                    new_values=new_values,
+                )
             if conv < self.conv_threshold:
                 break
 
@@ -339,12 +349,16 @@ class PolicyIteration(ValueIteration):
             SolverState containing final values [n_states], optimal policy [n_states],
             and SolverInfo including iteration count
         """
+        if _verif.ENABLED:
+            _verif.emit("solve_begin", solver=self, max_iterations=max_iterations)
         for _ in range(max_iterations):
             self.iteration += 1
 
             # Do one iteration of policy iteration
             new_policy, n_changed = self._iteration_step()
             self.policy = new_policy
+            if _verif.ENABLED:
+                _verif.emit("sweep", solver=self, n_changed=int(n_changed))
 
             # Log progress
             logger.info(
@@ -354,6 +368,8 @@ class PolicyIteration(ValueIteration):
             # Check for convergence
             if n_changed == 0:
                 logger.info(f"Policy converged at iteration {self.iteration}")
+                if _verif.ENABLED:
+                    _verif.emit("converged", solver=self)
                 break
 
             # Save checkpoint if enabled
@@ -371,4 +387,6 @@ class PolicyIteration(ValueIteration):
             self.save(self.iteration)
 
         logger.success("Policy iteration completed")
+        if _verif.ENABLED:
+            _verif.emit("solve_end", solver=self)
         return self.solver_state
